@@ -9,7 +9,7 @@ func init() {
 		Rule: "laws: real ReverseComplement / Subsequence / Copy / Join executed next to a string-level reference. Exhaustive part: for every length 1..12, sequences in which every symbol of acgtryswkmbdhvn.-[] visits every position (rotations of the alphabet) plus random ones, with and without qualities / features / nested annotations / a pairing_mismatches entry at every position, x EVERY window: linear 0<=from<to<=n, circular windows of x+x (from<2n, length<=n) and wrapped ones (from>=to>=0); laws rc(rc(x))=x (in place and through a rebuilt object), rc(x)=reference, rc(sub(x,i,j))=sub(rc(x),n-j,n-i) (linear and circular), subcirc(x,i,j)=window of x+x (reference, and real Join(x,x) when x has no qualities), Copy equal, sources unchanged, mismatch positions transformed. Random part: lengths 13..2200 (pool limits 300/1024 included), edge windows. Sharing part: every (derivation in copy/rc/sub/subcirc/join, and copy/rc/join of a source emptied by Clear()+ClearQualities() or created by NewEmptyBioSequence(n>0): zero-length slices that keep a capacity) x (mutator in rc-inplace/SetSequence/SetQualities/SetFeatures/SetAttribute/nested-edit/DeleteAttribute/Join-inplace/Recycle/Append(Write|WriteString|WriteByte + WriteQualities|WriteByteQualities)/Clear) x (mutate derived / mutate source), then an Append to the other object; poison on, pool draws after Recycle. " +
 			"tables: the complement of every IUPAC symbol (both cases) through obiseq (one-symbol sequences), obiapat (one-symbol patterns, C table) and obikmer (verif export of revcompnuc) against the IUPAC complement, and random IUPAC patterns <= 63. " +
 			"history: populations of 4..35 live sequences, 200..2000 random operations (New, Copy, RC, RC-inplace, Sub, SubCirc, Join, Join-inplace, SetSequence, SetQualities, SetFeatures, attribute set/delete/nested edit, Recycle, pool scribbles GetSlice/RecycleSlice/GetAnnotation/RecycleAnnotation, Drop, NewEmptyBioSequence(0|n) (+Grow), Clear(+ClearQualities), ClearQualities, Append = Write|WriteString|WriteByte (+WriteQualities|WriteByteQualities), Grow; Copy/RC/Join/SetSequence/SetQualities/Recycle/Append are steered to empty objects one time out of three) with a random operation mix per history, poison on, one P and no background GC (pool hand-out order is a function of the operations); after EVERY step all live objects are compared with a harness-owned model and all live backing arrays / annotation containers are checked for overlap. " +
-			"Added later: concurrent sub-check (2-16 goroutines with private models of the records they hold, sharing the pools), the position map in its decoded-JSON form. " +
+			"Added later: concurrent sub-check (2-16 goroutines with private models of the records they hold, sharing the pools), the position map in its decoded-JSON form. paired reads in the histories (PairTo, UnPair, writes through PairedWith(): a derived object must not reach the mate of its source). " +
 			"distinct_nontrivial = distinct (length, from, to, circular, qualities, mismatches) windows for n<=12 and (length class, edge class) above + distinct (derivation, mutator, direction, length class) sharing trials + distinct (operation, origin of the object, state of its source, has children, qualities) and (previous operation on the object > operation) pairs observed in histories + symbols / pattern lengths of the tables",
 		Assume: []string{
 			"alphabet of the property: acgtryswkmbdhvn.-[] ('u' is only used for the comparison of the three tables); nucleotides are compared case-insensitively",
